@@ -477,21 +477,23 @@ def inputs(tier: str):
     if tier == "quick":
         groups = {
             "string ids differing in punctuation only": list(string_id_specs(3)),
+            "non-ASCII names and kinds": list(gen.plain_specs(3, min_n=1, alphabet=("Zürich", "日本"))) + [gen.Spec(tuple((p, lab, d, ("zubehör", "k1")[i % 2]) for i, (p, lab, d, _k) in enumerate(s.nodes)), typed=True) for s in gen.plain_specs(3, min_n=1, alphabet=("Zürich", "b"))],
             "plain": list(gen.plain_specs(4)),
             "typed": list(gen.typed_specs(3, alphabet=("a", "b", "c"))) + list(gen.typed_specs(4, min_n=4)),
             "equal data under distinct ids": list(gen.eqpair_specs(3)),
             "data_id 0": list(zero_id_specs(3)),
         }
-        words = "plain forests <= 4 nodes over {a,b,c}; typed forests <= 3 nodes over {a,b,c} and with 4 nodes over {a,b} (at most 2 siblings) x kinds {k1,k2}; equal-data pairs <= 3 nodes; one node with data_id 0 (<= 3 nodes); explicit string ids lib-x / lib_x / lib.x on 2..3 nodes (<= 3 nodes)"
+        words = "plain forests <= 4 nodes over {a,b,c}; typed forests <= 3 nodes over {a,b,c} and with 4 nodes over {a,b} (at most 2 siblings) x kinds {k1,k2}; equal-data pairs <= 3 nodes; one node with data_id 0 (<= 3 nodes); explicit string ids lib-x / lib_x / lib.x on 2..3 nodes (<= 3 nodes); non-ASCII names (Zürich, 日本) and a non-ASCII kind (<= 3 nodes)"
     else:
         groups = {
             "string ids differing in punctuation only": list(string_id_specs(4)),
+            "non-ASCII names and kinds": list(gen.plain_specs(4, min_n=1, alphabet=("Zürich", "日本"))) + [gen.Spec(tuple((p, lab, d, ("zubehör", "k1")[i % 2]) for i, (p, lab, d, _k) in enumerate(s.nodes)), typed=True) for s in gen.plain_specs(3, min_n=1, alphabet=("Zürich", "b"))],
             "plain": list(gen.plain_specs(5)),
             "typed": list(gen.typed_specs(4, alphabet=("a", "b", "c"))),
             "equal data under distinct ids": list(gen.eqpair_specs(4)),
             "data_id 0": list(zero_id_specs(4)),
         }
-        words = "plain forests <= 5 nodes over {a,b,c}; typed forests <= 4 nodes over {a,b,c} x kinds {k1,k2}; equal-data pairs <= 4 nodes; one node with data_id 0 (<= 4 nodes); explicit string ids lib-x / lib_x / lib.x on 2..3 nodes (<= 4 nodes)"
+        words = "plain forests <= 5 nodes over {a,b,c}; typed forests <= 4 nodes over {a,b,c} x kinds {k1,k2}; equal-data pairs <= 4 nodes; one node with data_id 0 (<= 4 nodes); explicit string ids lib-x / lib_x / lib.x on 2..3 nodes (<= 4 nodes); non-ASCII names (Zürich, 日本) and a non-ASCII kind (<= 4 nodes)"
     return groups, words
 
 
